@@ -70,6 +70,9 @@ func slotPresent(c kase, slot string) bool {
 
 var rateRE = regexp.MustCompile(`[0-9.]+ [KMGT]?B/s`)
 
+// progress meter lines are printed or not depending on timer ticks; what they report is observed through requests and final state
+var progressRE = regexp.MustCompile(`(?m)^(Uploading|Downloading|Checking out) LFS objects:.*\n?`)
+
 func (t *twin) norm(b []byte) string {
 	s := string(b)
 	for _, r := range t.roots {
@@ -77,6 +80,7 @@ func (t *twin) norm(b []byte) string {
 	}
 	s = strings.ReplaceAll(s, t.s.Tag, "T-X")
 	s = rateRE.ReplaceAllString(s, "N B/s")
+	s = progressRE.ReplaceAllString(s, "")
 	return s
 }
 
